@@ -79,3 +79,91 @@ class FullStackHarness(bp_net.BpHarness):
             self.hang = True
             self.wld.cur = None
             self.wld.log('callback-hang')
+
+
+TCPCL_NAME = 'org.ietf.dtn.tcpcl'
+TCPCL_AGENT_PATH = '/org/ietf/dtn/tcpcl/Agent'
+
+
+class TcpFullStackHarness(bp_net.BpHarness):
+    ''' E5f over TCPCL: on each of two hosts a real ``bp.agent.Agent`` with the real ``bp.cla.TcpclAdaptor`` and a real
+    ``tcpcl.agent.Agent`` as separate nodes on the host's simulated D-Bus; the hosts are joined by simulated TCP. The adaptor
+    opens sessions on demand (``connect`` over D-Bus), attaches to contact objects on ``connection_opened``, sends through
+    ``send_bundle_data`` and pops on ``recv_bundle_finished``. '''
+
+    def __init__(self, plan, sched, verbose=False):  # pylint: disable=super-init-not-called
+        bp_net.patch_bp()
+        boot.patch_tcpcl()
+        import bp.agent
+        import bp.config
+        import tcpcl.agent
+        import tcpcl.config
+        import tcpcl.session
+        self.plan = plan
+        self.wld = World(sched, max_steps=plan.get('max_steps', 300000), max_time_us=3600 * SEC)
+        self.wld.verbose = verbose
+        set_world(self.wld)
+        random.seed(sched.pick('global-random', 1 << 30))
+        self.net = Net(self.wld, plan.get('net'))
+        tcpcl.session.Connection.CHUNK_SIZE = plan.get('chunk_size', 10240)
+        self.bus = {}
+        self.agent = {}
+        self.cl = {}
+        self.node = {}
+        self.by_agent = {}
+        self.cl_out = {}
+        self.delivered = {}
+        self.receptions = []
+        self.hang = False
+        #: contact paths per side, in the order they were announced
+        self.opened = {'A': [], 'B': []}
+        self.closed = {'A': [], 'B': []}
+        bp_net.CURRENT = self
+        for side in ('A', 'B'):
+            self.net.add_host('h' + side, ADDR[side])
+            bus = dbusmod.SimBus(self.wld, 'bus' + side)
+            self.bus[side] = bus
+            clnode = self.wld.add_node('cl' + side, host='h' + side)
+            bpnode = self.wld.add_node('bp' + side, host='h' + side)
+            self.node['cl' + side] = clnode
+            self.node['bp' + side] = bpnode
+            with self.wld.as_node(clnode):
+                cfgd = dict(plan['cfg'][side])
+                cfgd['enable_test'] = set(cfgd.get('enable_test', ()))
+                ccfg = tcpcl.config.Config(bus_service=TCPCL_NAME, **cfgd)
+                ccfg.init_listen = [tcpcl.config.ListenConfig(address=ADDR[side], port=4556)]
+                ccfg._bus_conn = bus
+                self.cl[side] = tcpcl.agent.Agent(ccfg)
+            bus.matches.append(dict(node=None, sender=None, path=TCPCL_AGENT_PATH, iface=None, member='connection_opened',
+                                    handler=lambda path, _side=side: self.opened[_side].append(str(path))))
+            bus.matches.append(dict(node=None, sender=None, path=TCPCL_AGENT_PATH, iface=None, member='connection_closed',
+                                    handler=lambda path, _side=side: self.closed[_side].append(str(path))))
+            name = 'bp' + side
+            self.cl_out[name] = []
+            self.delivered[name] = []
+            other = 'B' if side == 'A' else 'A'
+            with self.wld.as_node(bpnode):
+                cfg = bp.config.Config(node_id='dtn://%s/' % side.lower())
+                cfg._bus_conn = bus
+                cfg.rx_route_table = [bp.config.RxRouteItem(re.compile('^dtn://%s/.*$' % side.lower()), 'deliver')]
+                cfg.tx_route_table = [bp.config.TxRouteItem(re.compile('.*'), 'dtn://%s/' % other.lower(), 'tcpcl', mtu=plan.get('bp_mtu'),
+                                                            raw_config=dict(next_nodeid='dtn://%s/' % other.lower(), address=ADDR[other], port=4556))]
+                agent = bp.agent.Agent(cfg)
+                agent.cl_attach('tcpcl', TCPCL_NAME)
+                self.agent[name] = agent
+                self.by_agent[id(agent)] = name
+
+    def user_call(self, side, path, member, *args):
+        ''' A D-Bus call by a user of the TCPCL agent of ``side`` (someone with dbus-send). '''
+        try:
+            return self.bus[side].call(TCPCL_NAME, path, None, member, args)
+        except dbusmod.DBusException as err:
+            return ('error', err.get_dbus_name() or type(err).__name__, str(err)[:120])
+
+    def run_until(self, until_us):
+        try:
+            self.wld.run(until_us=until_us)
+        except CallbackHang:
+            self.hang = True
+            self.wld.cur = None
+            self.wld.log('callback-hang')
